@@ -146,6 +146,8 @@ type c04Thread struct {
 	done    bool
 	pending bool // parked at the OnSubscribe handler (no goroutine)
 	isClose bool
+	mapSub  bool              // a two-request map subscribe (state page, then go-live)
+	replies []*protocol.Reply // replies of a map subscribe's requests
 }
 
 type c04Ev struct {
@@ -270,6 +272,37 @@ func (b *c04Broker) PublishLeave(ch string, info *ClientInfo) error {
 	return b.MemoryBroker.PublishLeave(ch, info)
 }
 
+// c04MapBroker: the in-memory map broker with Subscribe/Unsubscribe passing the same gates and
+// bookkeeping as the fake Broker, so that a map subscription's node-level subscribe is observed alike.
+type c04MapBroker struct {
+	*MemoryMapBroker
+	e *c04Eng
+}
+
+func (b *c04MapBroker) Subscribe(chs ...string) error {
+	for _, ch := range chs {
+		if !b.e.gate(c04GkBrokerSub, ch) {
+			return c04ErrBoom
+		}
+		b.e.mu.Lock()
+		b.e.bsub[ch] = true
+		b.e.mu.Unlock()
+	}
+	return b.MemoryMapBroker.Subscribe(chs...)
+}
+
+func (b *c04MapBroker) Unsubscribe(chs ...string) error {
+	for _, ch := range chs {
+		if !b.e.gate(c04GkBrokerUnsub, ch) {
+			return c04ErrBoom
+		}
+		b.e.mu.Lock()
+		b.e.bsub[ch] = false
+		b.e.mu.Unlock()
+	}
+	return b.MemoryMapBroker.Unsubscribe(chs...)
+}
+
 type c04Pres struct {
 	*MemoryPresenceManager
 	e *c04Eng
@@ -381,14 +414,28 @@ func c04Channels(prefix string, n int) []string {
 	return out
 }
 
-func c04NewEng(armed []c04Gk, nch int) (*c04Eng, error) {
+func c04NewEng(armed []c04Gk, nch int, withMap ...bool) (*c04Eng, error) {
 	e := &c04Eng{wake: make(chan struct{}, 1), why: map[string]int{}, byGid: map[int64]*c04Thread{}, bsub: map[string]bool{}, subOpts: map[string]c04Opts{}}
 	for _, k := range armed {
 		e.armed[k] = true
 	}
-	n, err := New(Config{LogLevel: LogLevelNone, ClientStaleCloseDelay: time.Hour})
+	cfg := Config{LogLevel: LogLevelNone, ClientStaleCloseDelay: time.Hour}
+	useMap := len(withMap) > 0 && withMap[0]
+	if useMap {
+		cfg.Map = MapConfig{GetMapChannelOptions: func(string) MapChannelOptions {
+			return MapChannelOptions{Mode: MapModeEphemeral, KeyTTL: time.Minute, MinPageSize: 1}
+		}}
+	}
+	n, err := New(cfg)
 	if err != nil {
 		return nil, err
+	}
+	if useMap {
+		mmb, err := NewMemoryMapBroker(n, MemoryMapBrokerConfig{})
+		if err != nil {
+			return nil, err
+		}
+		n.SetMapBroker(&c04MapBroker{MemoryMapBroker: mmb, e: e})
 	}
 	mb, err := NewMemoryBroker(n, MemoryBrokerConfig{})
 	if err != nil {
@@ -444,6 +491,15 @@ func c04NewEng(armed []c04Gk, nch int) (*c04Eng, error) {
 	// control the node gets a dissolver whose workers are only started by the drain command.
 	_ = n.subDissolver.Close()
 	n.subDissolver = dissolve.New(numSubDissolverWorkers)
+	if useMap {
+		for _, ch := range e.chs {
+			for _, k := range []string{"a", "b", "c"} {
+				if _, err := n.MapPublish(context.Background(), ch, k, MapPublishOptions{Data: []byte(`{"v":1}`)}); err != nil {
+					return nil, err
+				}
+			}
+		}
+	}
 	mk := func(user string, tr *c04Transport) (*Client, error) {
 		ctx, cancel := context.WithCancel(context.Background())
 		tr.cancel = cancel
@@ -500,7 +556,7 @@ func (e *c04Eng) onSubscribe(ev SubscribeEvent, cb SubscribeCallback) {
 	o := e.subOpts[ev.Channel]
 	if e.bypass || !e.armed[c04GkSubH] {
 		e.mu.Unlock()
-		cb(SubscribeReply{Options: SubscribeOptions{EmitPresence: o.Pres, EmitJoinLeave: o.JL}}, nil)
+		cb(SubscribeReply{Options: SubscribeOptions{Type: ev.Type, EmitPresence: o.Pres, EmitJoinLeave: o.JL}}, nil)
 		return
 	}
 	if th != nil {
@@ -744,7 +800,14 @@ func (e *c04Eng) chIdx(ch string) uint64 {
 }
 
 func (e *c04Eng) runThread(what string, isClose bool, f func()) *c04Thread {
+	return e.runThreadInit(what, isClose, nil, f)
+}
+
+func (e *c04Eng) runThreadInit(what string, isClose bool, init func(*c04Thread), f func()) *c04Thread {
 	th := &c04Thread{what: what, isClose: isClose}
+	if init != nil {
+		init(th)
+	}
 	e.mu.Lock()
 	th.k = len(e.threads)
 	e.threads = append(e.threads, th)
@@ -765,6 +828,12 @@ type c04Op struct {
 	Kind string  `json:"op"` // subcli subsrv unsubcli unsubsrv close tick connect
 	Ch   int     `json:"ch"`
 	Opts c04Opts `json:"opts"`
+	// Map: the client subscribe is a MAP subscription (ephemeral mode, no presence) done in two requests:
+	// first state page (the OnSubscribe handler authorises, the reservation goes to c.mapSubscribing), then
+	// the last page which goes live (hub add, commit, close of the reservation's gate, join).  The model
+	// route is the ordinary client subscribe; only schedules in which nothing looks at the channel
+	// between the two requests are comparable, so this is used by fixed templates only.
+	Map bool `json:"map,omitempty"`
 }
 
 func (o c04Op) coq() string {
@@ -825,6 +894,9 @@ func (e *c04Eng) spawn(o c04Op) *c04Thread {
 	var f func()
 	switch o.Kind {
 	case "subcli":
+		if o.Map {
+			return e.spawnMapSub(o, ch)
+		}
 		f = func() {
 			e.mu.Lock()
 			e.subOpts[ch] = o.Opts
@@ -867,6 +939,54 @@ func (e *c04Eng) spawn(o c04Op) *c04Thread {
 		}
 	}
 	return e.runThread(o.Kind, o.Kind == "close", f)
+}
+
+// spawnMapSub: first request of a map subscribe (state phase, one key per page so that the page is
+// intermediate).  The OnSubscribe handler parks as usual; releasing it runs the rest of the first request
+// and then the second request (last page -> live) in the same goroutine.
+func (e *c04Eng) spawnMapSub(o c04Op, ch string) *c04Thread {
+	c := e.client
+	var th *c04Thread
+	th = e.runThreadInit("subcli", false, func(t *c04Thread) { t.mapSub = true; th = t }, func() {
+		e.mu.Lock()
+		e.subOpts[ch] = o.Opts
+		e.mu.Unlock()
+		_ = c.handleSubscribe(&protocol.SubscribeRequest{Channel: ch, Type: int32(SubscriptionTypeMap), Phase: MapPhaseState, Limit: 1},
+			&protocol.Command{Id: 7}, time.Now(), e.mapReplyWriter(th))
+	})
+	return th
+}
+
+func (e *c04Eng) mapReplyWriter(th *c04Thread) *replyWriter {
+	return &replyWriter{write: func(rep *protocol.Reply) {
+		d, _ := rep.MarshalVT()
+		var r protocol.Reply
+		_ = r.UnmarshalVT(d)
+		e.mu.Lock()
+		th.replies = append(th.replies, &r)
+		e.mu.Unlock()
+	}}
+}
+
+// mapGoLive issues the second request of a map subscribe: the last state page, which goes live.
+func (e *c04Eng) mapGoLive(th *c04Thread, ch string) {
+	e.mu.Lock()
+	var first *protocol.SubscribeResult
+	if len(th.replies) == 1 && th.replies[0].Error == nil {
+		first = th.replies[0].Subscribe
+	}
+	e.mu.Unlock()
+	if first == nil || first.Cursor == "" {
+		e.mu.Lock()
+		if e.stuck == "" {
+			e.stuck = "map subscribe: first state page is not an intermediate page"
+		}
+		e.mu.Unlock()
+		return
+	}
+	_ = e.client.handleSubscribe(&protocol.SubscribeRequest{Channel: ch, Type: int32(SubscriptionTypeMap), Phase: MapPhaseState,
+		Limit: 100, Cursor: first.Cursor, Offset: first.Offset, Epoch: first.Epoch},
+		&protocol.Command{Id: 9}, time.Now(), e.mapReplyWriter(th))
 }
 
 // parked returns the current parks in a deterministic order.
@@ -917,7 +1037,10 @@ func (e *c04Eng) release(p *c04Park, b bool) {
 			e.setGid(th)
 			close(ready)
 			defer e.finish(th)
-			if b {
+			if b && th != nil && th.mapSub {
+				p.cb(SubscribeReply{Options: SubscribeOptions{Type: SubscriptionTypeMap, EmitJoinLeave: p.opts.JL}}, nil)
+				e.mapGoLive(th, p.ch)
+			} else if b {
 				p.cb(SubscribeReply{Options: SubscribeOptions{EmitPresence: p.opts.Pres, EmitJoinLeave: p.opts.JL}}, nil)
 			} else {
 				p.cb(SubscribeReply{}, ErrorPermissionDenied)
@@ -1284,6 +1407,7 @@ type c04Plan struct {
 	Key    string // canonical finding key (props JSON finding_key = "key")
 	Armed  []c04Gk
 	NCh    int
+	Map    bool // node with a map broker and two published keys per channel (map-subscribe templates)
 	Script func(e *c04Eng, r *rand.Rand)
 	Drain  bool
 	Finish func(e *c04Eng) // replaces the default "release everything (and drain)" ending
@@ -1324,7 +1448,7 @@ func c04RunPlan(p c04Plan, seed int64) (res c04Result) {
 }
 
 func c04RunPlanOnce(p c04Plan, r *rand.Rand) (res c04Result, unsafe bool) {
-	e, err := c04NewEng(p.Armed, p.NCh)
+	e, err := c04NewEng(p.Armed, p.NCh, p.Map)
 	if err != nil {
 		return c04Result{Term: "", JS: map[string]any{"error": err.Error()}, Class: "setup-error"}, false
 	}
